@@ -98,3 +98,11 @@ def same(got, exp, what=""):
     if not STATE["symbolic"] and not ok:
         explain("%s: got %r, expected %r", what, got, exp)
     return ok
+
+
+def bit_of(byte, k):
+    """bit k (LSB = 0) of a byte value as a bool"""
+    if STATE["symbolic"]:
+        from engine import chmodels
+        return chmodels.bit_of(byte, k)
+    return (byte >> k) & 1 == 1
